@@ -151,8 +151,11 @@ def well_separated(d, es=None):
     es = es or entries(d)
     froms = [d['obs'][i]['off_from'] for _, i in es]
     n = len(es)
+    span = (max(froms) - min(froms)) if froms else 0
     for a in range(n):
-        for b in range(a + 1, min(n, a + 8)):
+        for b in range(a + 1, n):
+            if es[b][0] - es[a][0] > span:
+                break
             if es[a][0] < es[b][0] and es[b][0] - es[a][0] <= froms[a] - froms[b]:
                 return False
     return True
@@ -288,6 +291,9 @@ def gen_wild(rng, k):
                     'off_to': rand_off(rng), 'tzname': rand_name(rng, used), 'rule': rule})
     if not any(o['kind'] == 'STANDARD' for o in obs):
         obs[0]['kind'] = 'STANDARD'
+    if len(obs) > 1 and rng.random() < 0.4:
+        a, b = rng.sample(range(len(obs)), 2)
+        obs[a]['off_to'] = obs[b]['off_to']          # equal offsets: zero DST amounts (the falsy timedelta(0) path)
     fix_amounts(obs)
     return {'tzid': f'X/Wild{k}', 'obs': obs, 'family': 'wild'}
 
@@ -327,11 +333,34 @@ def nondst_witness():
         {'kind': 'STANDARD', 'dtstart': dt.datetime(2000, 1, 1), 'off_from': 3600, 'off_to': -10800, 'tzname': 'B', 'rule': None}]}
 
 
+def zero_dst_witness():
+    """a DAYLIGHT observance with the same offset as the STANDARD one before it: `if not dst_offset` is true
+    for timedelta(0) and the amount is taken from the *next* STANDARD observance (-2 h)"""
+    mk = lambda kind, y, f, t, nm: {'kind': kind, 'dtstart': dt.datetime(y, 1, 1), 'off_from': f, 'off_to': t, 'tzname': nm, 'rule': None}
+    return {'tzid': 'X/ZeroDst', 'family': 'chain', 'obs': [mk('STANDARD', 2000, 3600, 3600, 'S1'), mk('DAYLIGHT', 2001, 3600, 3600, 'D'),
+                                                            mk('STANDARD', 2002, 3600, 10800, 'S2')]}
+
+
+def daylight_only_witness(rng=None):
+    o = {'kind': 'DAYLIGHT', 'dtstart': dt.datetime(2000, 1, 1), 'off_from': 3600, 'off_to': 7200, 'tzname': 'D', 'rule': None}
+    if rng is not None:
+        o['off_from'], o['off_to'] = rand_off(rng), rand_off(rng)
+        o['dtstart'] = dt.datetime(rng.randint(1971, 2030), rng.randint(1, 12), rng.randint(1, 28))
+    obs = [o]
+    fix_amounts(obs)
+    obs[0]['kind'] = 'DAYLIGHT' if abs(o['off_to'] - o['off_from']) < 86400 else 'STANDARD'
+    return {'tzid': 'X/DstOnly', 'family': 'wild', 'obs': obs}
+
+
 def definitions(ctx, n_pair, n_chain, n_wild):
     yield d23_witness()
     yield same_name_witness()
     yield until_witness()
     yield nondst_witness()
+    yield zero_dst_witness()
+    yield daylight_only_witness()
+    for _ in range(3):
+        yield daylight_only_witness(ctx.rng)
     k = 0
     for _ in range(n_pair):
         k += 1
@@ -575,7 +604,9 @@ def classify(d, prov, t, es):
     for o in d['obs']:
         if o['tzname'] is not None:
             names.setdefault(o['tzname'], set()).add(o['kind'])
-    if any(len(k) > 1 for k in names.values()):
+    if prov == 'pytz' and not any(o['kind'] == 'STANDARD' for o in d['obs']):
+        return 'daylight-only-definition'
+    if prov == 'pytz' and any(len(k) > 1 for k in names.values()):
         return 'tzname-shared-by-standard-and-daylight'
     if not well_separated(d, es):
         return 'onsets-closer-than-jump'
